@@ -226,7 +226,7 @@ PROPS["C05"] = {
 PROPS["C04"] = {
     "harness": {"kind": "overlay", "pkg": "pkg/p2p/libp2p", "pkgname": "libp2p",
                 "files": ["libp2p/c04_test.go"], "test": "TestVerifC04"},
-    "extra_harnesses": [{"cmd": "nodewire", "tag": "nodewire"}, {"kind": "overlay", "pkg": "pkg/p2p/libp2p", "pkgname": "libp2p", "files": ["libp2p/c14_test.go"], "test": "TestVerifC14", "tag": "c14"}],
+    "extra_harnesses": [{"cmd": "nodewire", "tag": "nodewire"}, {"kind": "overlay", "pkg": "pkg/p2p/libp2p", "pkgname": "libp2p", "files": ["libp2p/c14_test.go"], "test": "TestVerifC14", "tag": "c14"}, {"cmd": "c15", "tag": "c15"}],
     "level_text": "Theorems for every remote transcript (arbitrary frame lists), both directions, every local role, every registry answer and every primitive answer: characterisation of verifyReq (success iff the signature over exactly role||token verifies, to the address of the authenticated transport identity, and - for the exact role string 'provider' - the registry confirmed it; the registry is consulted at most once and only after the signature and address checks passed); a peer is admitted with (A,T) by the responder only if its first frame is such a request and its second frame echoes the node's own address and role, and by the initiator only if the responder first echoed the initiator's own address and role and then presented such a request; a peer obtains the provider role only through the exact string the stake check keys on (role strings regenerated from p2p.go); registration and notification happen only after success, signature/address failures are blocked forever and stake failures for the regenerated durations. Tied to the real handshake.Service built as libp2p.New builds it (real signer, real GetEthAddressFromPeerID) over a scripted stream, and to the real handleConnectReq / Connect on a Service with a fake libp2p host, real peerRegistry, recording notifier and real block list: message kinds per position x signature classes x role strings (incl. case/whitespace variants) x echoes x truncations x write failures x non-secp256k1 transport identity x registry answers x local roles x direction. Whole node: the scenarios of harness/cmd/nodewire (two real nodes built by node.NewNode against a scripted JSON-RPC chain node, driven through their gRPC APIs: stake / allowance present or not, engine accepts or rejects, well-formed or malformed request) are part of this check and are judged by Model/Wiring.",
     "level_note": "Trusted: Lean kernel; harness; libp2p's authentication of the remote peer id (connection security) is assumed; ECDSA recovery/verification answers come from go-ethereum directly and are parameters of the theorems; an unknown role string is admitted with role 'unknown' (allowed by the statement's 'only if', recorded).",
     "nontrivial_rule": "distinct (tag, direction, level, model observation) cells",
@@ -265,6 +265,7 @@ PROPS["C20"] = {
 PROPS["C06"] = {
     "harness": {"kind": "overlay", "pkg": "pkg/p2p/libp2p", "pkgname": "libp2p",
                 "files": ["libp2p/c17_test.go", "libp2p/c04_test.go", "libp2p/c06_test.go"], "test": "TestVerifC06"},
+    "extra_harnesses": [{"kind": "overlay", "pkg": "pkg/p2p/libp2p", "pkgname": "libp2p", "files": ["libp2p/c14_test.go"], "test": "TestVerifC14", "tag": "c14"}],
     "level_text": "Theorems: every partial operation that peer-controlled data can reach is modelled with Go's panicking semantics and proved unreachable in the panicking case - sig[64] in eipVerify and the embedded-bid dereference in VerifyPreConfirmation (for every hash function and scheme), the signature slice in signer.Verify (reached only after recovery succeeded, i.e. for 65-byte signatures; the guard is shown necessary), the prefix slice in GetEthAddressFromPeerID (reached only after decompression succeeded), the registry dereference in Disconnected (from the C14 invariant), BytesToAddress total for every length; frame reading is total. Tied to the real entry points invoked the way libp2p invokes them: handshake handler and Connect (all signature lengths 0..70, role strings, non-secp256k1 identities, echo shapes), the AddStreamHandlers wrapper with the real preconfirmation and discovery handlers behind it (digest/signature length classes, non-numeric and huge amounts, extreme numbers, gossip addresses of length 0..40, hostile contact records through the real Connect), the bidder's SendBid reading hostile commitments through the real stream decoder, raw ReadMsg/ReadHeader, oversize/truncated/empty/OK-error frames, byte-level mutations and random bytes.",
     "level_note": "Trusted: Lean kernel; harness; third-party decoders (protobuf, multiaddr / AddrInfo JSON, msgio) are exercised, not modelled (partial). The libp2p Service is built with a metrics registry, as the node does (without one its counters are nil and a failed inbound handshake dereferences them - noted in DESIGN.md).",
     "nontrivial_rule": "distinct (entry point, tag, wire length class) cells",
